@@ -4,10 +4,16 @@
    non-empty index space, mode and option combination.  Spec-side vocabulary (Proofs/TenalgProofs*.v):
    mentry M tr j i = M[j,i] or conj(M[i,j]) under transpose;  kr_entry Ms is r = prod_k Ms_k[is_k, r];
    kron_entry Ms is js = prod_k Ms_k[is_k, js_k];  wv w r / maskv m row = the weight / mask entry (1 if absent);
-   mats R Ms = all matrices well-formed with R columns;  bsum / ssum = finite sums over a range / an index space. *)
-From Coq Require Import List Arith ZArith Ring_theory.
+   mats R Ms = all matrices well-formed with R columns;  bsum / ssum = finite sums over a range / an index space;
+   outer_entry ts idxs = prod_k t_k[idx_k];  bouter_entry b ts idxs = prod_k t_k[b, idx_k];  batched nb t i = t has shape
+   nb :: s and i is an index of s;  xprod T b idxs = prod_j T[b, idx_j];  tuple_at inds s = the s-th sampled index tuple;
+   set_many ms is idx = idx with positions ms_j replaced by is_j;  operand_ok tr s x = triple x = (M, m, operand index) has
+   m < len s, M a well-formed (J, s_m) matrix ((s_m, J) under transpose), J > 0;  outdim = J;
+   mm_coef tr L is idx = prod_j M_j[idx_{m_j}, is_j] (conjugate transpose under tr). *)
+From Coq Require Import List Arith ZArith Ring_theory Permutation.
 From TLV Require Import Base.Shape Base.PyList Base.Tensor Base.BigSum Model.Base Model.Tenalg
-  Proofs.TenalgProofs Proofs.TenalgProofsKR Proofs.TenalgProofsEinsum Proofs.TenalgProofsInner.
+  Proofs.TenalgProofs Proofs.TenalgProofsKR Proofs.TenalgProofsEinsum Proofs.TenalgProofsInner
+  Proofs.TenalgProofsOuter Proofs.TenalgProofsSample Proofs.TenalgProofsSort Proofs.TenalgProofsEinsumVec Proofs.TenalgProofsMulti Proofs.TenalgProofsEinsumInner.
 Import ListNotations.
 
 Definition ring_of {F} (Op : rops F) := ring_theory (r0 Op) (r1 Op) (radd Op) (rmul Op) (rsub Op) (ropp Op) (@eq F).
@@ -107,6 +113,134 @@ Theorem C02_inner_core : forall (F : Type) (Op : rops F) (A B : tensor F) (sa sc
 Proof. exact @inner_core_spec. Qed.
 Print Assumptions C02_inner_core.
 
+(* einsum backend: the equation built by einsum_tenalg.inner, under the generic einsum semantics, is the same formula
+   (every n_modes >= 0), hence the two backends agree on inner *)
+Theorem C02_inner_einsum : forall (F : Type) (Op : rops F), ring_of Op ->
+  forall (A B : tensor F) (sa sc sb : list nat),
+  shape A = sa ++ sc -> shape B = sc ++ sb ->
+  exists R, inner_e Op A B (Some (length sc)) = Ok R /\ wf R /\ shape R = sa ++ sb /\
+    forall a b, inb sa a -> inb sb b ->
+      get (r0 Op) R (a ++ b) = ssum Op sc (fun c => rmul Op (get (r0 Op) A (a ++ c)) (get (r0 Op) B (c ++ b))).
+Proof. exact @inner_e_spec. Qed.
+Print Assumptions C02_inner_einsum.
+
+Corollary C02_inner_backends_agree : forall (F : Type) (Op : rops F), ring_of Op ->
+  forall (A B : tensor F) (sa sc sb : list nat),
+  wf A -> wf B -> shape A = sa ++ sc -> shape B = sc ++ sb -> 0 < prod (shape A) -> 0 < prod (shape B) ->
+  inner Op A B (Some (length sc)) = inner_e Op A B (Some (length sc)).
+Proof. exact @inner_backends_agree. Qed.
+Print Assumptions C02_inner_backends_agree.
+
+(* the nested sums of the generic einsum semantics over NoDup labels are one sum over the index space of the label sizes *)
+Theorem C02_einsum_sum_over_index_space : forall (F : Type) (Op : rops F), ring_of Op ->
+  forall (ls : list (nat * nat)) (e : env) (f : env -> F),
+  (forall e1 e2, (forall l, e1 l = e2 l) -> f e1 = f e2) -> NoDup (map fst ls) ->
+  esum Op ls e f = ssum Op (map snd ls) (fun c => f (bind (map fst ls) c e)).
+Proof. exact @esum_ssum. Qed.
+Print Assumptions C02_einsum_sum_over_index_space.
+
+(* einsum backend, vector operand: same contraction formula as the core backend, hence the backends agree *)
+Theorem C02_mode_dot_einsum_vector : forall (F : Type) (Op : rops F), ring_of Op ->
+  forall (T v : tensor F) (k : nat) (tr : bool) (n : nat),
+  wf T -> k < ndim T -> 0 < prod (shape T) -> shape v = [n] -> n = nth k (shape T) 0 ->
+  exists R, mode_dot_e Op T v k tr = Ok R /\ wf R /\ shape R = remove_nth k (shape T) /\
+    forall ridx, inb (shape R) ridx ->
+      get (r0 Op) R ridx = bsum Op n (fun i => rmul Op (get (r0 Op) v [i]) (get (r0 Op) T (insert_at k i ridx))).
+Proof. exact @mode_dot_e_vector_spec. Qed.
+Print Assumptions C02_mode_dot_einsum_vector.
+
+Corollary C02_mode_dot_vector_backends_agree : forall (F : Type) (Op : rops F), ring_of Op ->
+  forall (T v : tensor F) (k : nat) (tr : bool) (n : nat),
+  wf T -> k < ndim T -> 0 < prod (shape T) -> shape v = [n] -> n = nth k (shape T) 0 ->
+  mode_dot Op T v k tr = mode_dot_e Op T v k tr.
+Proof. exact @mode_dot_vector_backends_agree. Qed.
+Print Assumptions C02_mode_dot_vector_backends_agree.
+
+(* multi_mode_dot (core), matrix operands on distinct modes, any subset / listing order of modes, skip, transpose:
+   R[idx] = sum_{i_1..i_p} (prod_j M_j[idx_{m_j}, i_j]) * T[idx with positions m_j replaced by i_j].
+   PARTIAL: every operand of the list is a matrix (vector operands, which shift the later modes, are covered by the
+   correspondence and the Python predicate only). *)
+Theorem C02_multi_mode_dot_matrices_partial : forall (F : Type) (Op : rops F), ring_of Op ->
+  forall (T : tensor F) (Ms : list (tensor F)) (modes : option (list nat)) (skip : option nat) (tr : bool),
+  let L := filter (fun x => negb (is_skip skip (snd x))) (sort_by_mode (zip3 Ms modes)) in
+  let ms := map (@t_mode F) L in
+  wf T -> 0 < prod (shape T) -> (forall x, In x (sort_by_mode (zip3 Ms modes)) -> ndim (fst (fst x)) <> 1) ->
+  NoDup ms -> Forall (operand_ok tr (shape T)) L ->
+  exists R, multi_mode_dot Op T Ms modes skip tr = Ok R /\ wf R /\
+    shape R = set_many ms (map (outdim tr) L) (shape T) /\
+    forall idx, inb (shape R) idx ->
+      get (r0 Op) R idx = ssum Op (map (fun m => nth m (shape T) 0) ms)
+                      (fun is_ => rmul Op (mm_coef Op tr L is_ idx) (get (r0 Op) T (set_many ms is_ idx))).
+Proof. exact @multi_mode_dot_matrices_spec. Qed.
+Print Assumptions C02_multi_mode_dot_matrices_partial.
+
+(* multi_mode_dot (both backends, skip=None, any operand kinds): the result does not depend on the order in which the
+   (operand, mode) pairs are listed *)
+Theorem C02_multi_mode_dot_order : forall (F : Type) (Op : rops F) (T : tensor F) (ops ops' : list (tensor F * nat)) (tr : bool),
+  Permutation ops ops' -> NoDup (map snd ops) ->
+  multi_mode_dot Op T (map fst ops) (Some (map snd ops)) None tr = multi_mode_dot Op T (map fst ops') (Some (map snd ops')) None tr /\
+  multi_mode_dot_e Op T (map fst ops) (Some (map snd ops)) None tr = multi_mode_dot_e Op T (map fst ops') (Some (map snd ops')) None tr.
+Proof. exact @multi_mode_dot_order. Qed.
+Print Assumptions C02_multi_mode_dot_order.
+
+(* batched tensordot (core): any listing order of the same (batch mode of tensor1, batch mode of tensor2) pairs gives the
+   same tensor (the defect repaired by 8cd4a39; regression Example tensordot_batch_order_regression) *)
+Theorem C02_tensordot_core_batch_order : forall (F : Type) (Op : rops F) (A B : tensor F) (m1 m2 : list nat) (l l' : list (nat * nat)),
+  Permutation l l' -> NoDup (map fst l) ->
+  tensordot Op A B m1 m2 (map fst l) (map snd l) = tensordot Op A B m1 m2 (map fst l') (map snd l').
+Proof. exact @tensordot_batch_order. Qed.
+Print Assumptions C02_tensordot_core_batch_order.
+
+(* outer(ts)[idx_1 ++ ... ++ idx_n] = prod_k t_k[idx_k], any number of operands of any orders *)
+Theorem C02_outer_core : forall (F : Type) (Op : rops F), ring_of Op ->
+  forall (ts : list (tensor F)) (idxs : list (list nat)),
+  ts <> [] -> Forall2 (fun t i => inb (shape t) i) ts idxs ->
+  exists R, outer Op ts = Ok R /\ shape R = concat (map (@shape F) ts) /\
+    get (r0 Op) R (concat idxs) = outer_entry Op ts idxs.
+Proof. exact @outer_spec. Qed.
+Print Assumptions C02_outer_core.
+
+(* batched_outer(ts)[b, idx_1 ++ ... ++ idx_n] = prod_k t_k[b, idx_k] *)
+Theorem C02_batched_outer_core : forall (F : Type) (Op : rops F), ring_of Op ->
+  forall (nb b : nat) (ts : list (tensor F)) (idxs : list (list nat)),
+  ts <> [] -> Forall2 (batched nb) ts idxs -> b < nb ->
+  exists R, batched_outer Op ts = Ok R /\ shape R = nb :: concat (map (fun t => tl (shape t)) ts) /\
+    get (r0 Op) R (b :: concat idxs) = bouter_entry Op b ts idxs.
+Proof. exact @batched_outer_spec. Qed.
+Print Assumptions C02_batched_outer_core.
+
+(* (n_samples * higher_order_moment(T, order))[idx_1 ++ ... ++ idx_order] = sum_b prod_j T[b, idx_j]
+   (the model is the sum over the sample axis; the final division by n_samples is outside the ring regime) *)
+Theorem C02_higher_order_moment_core : forall (F : Type) (Op : rops F), ring_of Op ->
+  forall (T : tensor F) (ns : nat) (feat : list nat) (idxs : list (list nat)),
+  shape T = ns :: feat -> 0 < ns -> idxs <> [] -> Forall (inb feat) idxs ->
+  exists R, higher_order_moment_sum Op T (length idxs) = Ok R /\
+    shape R = concat (map (fun _ => feat) idxs) /\
+    get (r0 Op) R (concat idxs) = bsum Op ns (fun b => xprod Op T b idxs).
+Proof. exact @moment_sum_spec. Qed.
+Print Assumptions C02_higher_order_moment_core.
+
+(* sample_khatri_rao: the returned row indices are the row-major indices of the sampled tuples, and sampled row s is
+   row indices_kr[s] of the full Khatri-Rao product of the non-skipped matrices *)
+Theorem C02_sample_khatri_rao : forall (F : Type) (Op : rops F), ring_of Op ->
+  forall (Ms : list (tensor F)) (skip : option nat) (inds : list (list nat)) (n R : nat),
+  let Ms' := skipl skip Ms in
+  Ms' <> [] -> mats R Ms' -> length inds = length Ms' -> Forall (fun l => length l = n) inds ->
+  (forall s, s < n -> inb (map nrows Ms') (tuple_at inds s)) ->
+  exists K, khatri_rao Op Ms None None skip = Ok K /\
+    forall s r, s < n -> r < R ->
+      nth s (sample_kr_indices Ms skip inds n) 0 < nrows K /\
+      get (r0 Op) (sample_kr_rows Op Ms skip inds n) [s; r] = get (r0 Op) K [nth s (sample_kr_indices Ms skip inds n) 0; r].
+Proof. exact @sample_khatri_rao_spec. Qed.
+Print Assumptions C02_sample_khatri_rao.
+
+Theorem C02_sample_khatri_rao_indices : forall (F : Type) (Ms : list (tensor F)) (skip : option nat) (inds : list (list nat)) (n s : nat),
+  let Ms' := skipl skip Ms in
+  length inds = length Ms' -> Forall (fun l => length l = n) inds -> s < n ->
+  nth s (sample_kr_indices Ms skip inds n) 0 = ravel (map nrows Ms') (tuple_at inds s).
+Proof. exact @sample_kr_indices_spec. Qed.
+Print Assumptions C02_sample_khatri_rao_indices.
+
 (* non-vacuity: the hypotheses are met by concrete Gaussian-integer operands and the model computes on them *)
 Example C02_nonvacuous_mode_dot :
   let T : tensor GI := mk [2; 1; 2] [(1, 1); (0, 2); (-1, 0); (3, -1)]%Z in
@@ -128,3 +262,30 @@ Proof.
   cbv zeta. split; [discriminate|]. split; [|vm_compute; reflexivity].
   repeat constructor.
 Qed.
+
+(* non-vacuity of C02_multi_mode_dot_matrices_partial: operands listed out of mode order, one skipped, conjugate transpose *)
+Example C02_nonvacuous_multi_mode_dot :
+  let T : tensor GI := mk [2; 1; 2] [(1, 1); (0, 2); (-1, 0); (3, -1)]%Z in
+  let M2 : tensor GI := mk [2; 3] [(1, 0); (0, 1); (2, 0); (0, -1); (1, 1); (0, 0)]%Z in
+  let M0 : tensor GI := mk [2; 1] [(0, 1); (2, -1)]%Z in
+  let M1 : tensor GI := mk [1; 2] [(1, 0); (5, 5)]%Z in
+  let L := filter (fun x => negb (is_skip (Some 1) (snd x))) (sort_by_mode (zip3 [M2; M1; M0] (Some [2; 1; 0]))) in
+  wf T /\ 0 < prod (shape T) /\ NoDup (map (@t_mode GI) L) /\ Forall (operand_ok true (shape T)) L /\
+  multi_mode_dot GR T [M2; M1; M0] (Some [2; 1; 0]) (Some 1) true = multi_mode_dot_e GR T [M2; M1; M0] (Some [2; 1; 0]) (Some 1) true /\
+  multi_mode_dot GR T [M2; M1; M0] (Some [2; 1; 0]) (Some 1) true = Ok (mk [1; 1; 3] [(-2, 7); (8, -7); (-2, -4)]%Z).
+Proof.
+  cbv zeta. split; [vm_compute; reflexivity|]. split; [vm_compute; auto with arith|].
+  split; [vm_compute; repeat constructor; simpl; intuition discriminate|].
+  split; [|split; vm_compute; reflexivity].
+  vm_compute filter. repeat constructor; cbn; try (vm_compute; reflexivity); auto with arith.
+  all: try (eexists; eexists; repeat split; try reflexivity; auto with arith).
+Qed.
+
+(* non-vacuity of C02_sample_khatri_rao / C02_higher_order_moment_core on concrete integer operands *)
+Example C02_nonvacuous_sample_moment :
+  let A : tensor Z := mk [2; 2] [1; 2; 3; 4]%Z in
+  let B : tensor Z := mk [3; 2] [5; 6; 7; 8; 9; 10]%Z in
+  sample_kr_indices [A; B] None [[1; 0]; [2; 1]] 2 = [5; 1] /\
+  sample_kr_rows ZR [A; B] None [[1; 0]; [2; 1]] 2 = mk [2; 2] [27; 40; 7; 16]%Z /\
+  higher_order_moment_sum ZR B 2 = Ok (mk [2; 2] [155; 176; 176; 200]%Z).
+Proof. cbv zeta. repeat split; vm_compute; reflexivity. Qed.
